@@ -44,3 +44,12 @@ func (v *VerifC37Deduplicator) NotifyWalletClosed(walletID [32]byte) bool {
 func VerifC37SetHook(fn func(name string)) {
 	verifhook.Set(fn)
 }
+
+// VerifC37DKGResultSubmittedCacheKey calls dkgResultSubmittedCacheKey.
+func VerifC37DKGResultSubmittedCacheKey(
+	seed *big.Int,
+	hash [32]byte,
+	block uint64,
+) string {
+	return dkgResultSubmittedCacheKey(seed, DKGChainResultHash(hash), block)
+}
